@@ -566,14 +566,18 @@ def cmp_dump(cdl, c):
             if c.isrec(ov):
                 shape = [c.numrecs] + shape[1:]
             ncols = shape[-1] if shape else 1
-            exp = b''.join(ov.data)
-            erows = [exp[i:i + ncols] for i in range(0, len(exp), ncols)] if ncols else []
-            if rows is None or len(rows) != len(erows):
-                probs.append(('data-char-rows', '%s: %r rows printed, oracle %d' % (nm, None if rows is None else len(rows), len(erows))))
+            nrows = (n // ncols) if ncols else 0
+            if rows is None or len(rows) != nrows:
+                probs.append(('data-char-rows', '%s: %r rows printed, oracle %d' % (nm, None if rows is None else len(rows), nrows)))
                 continue
-            for i, (r, e) in enumerate(zip(rows, erows)):
-                if r != e.rstrip(b'\0'):
-                    probs.append(('data-char', '%s row %d: printed %r, oracle %r' % (nm, i, r, e)))
+            for i, r in enumerate(rows):
+                e = ov.data[i * ncols:(i + 1) * ncols]       # elements past the end of the file are b'' (not defined)
+                if len(r) > ncols:
+                    probs.append(('data-char', '%s row %d: %d bytes printed, row length %d' % (nm, i, len(r), ncols)))
+                    break
+                rp = r + b'\0' * (ncols - len(r))
+                if any(len(x) == 1 and x[0] != rp[j] for j, x in enumerate(e)):
+                    probs.append(('data-char', '%s row %d: printed %r, oracle %r' % (nm, i, r, b''.join(e))))
                     break
             continue
         if len(toks) != n:
@@ -949,6 +953,12 @@ def check_diff_pair(T, rng, co, base, a, b, klass, desc, np_, tag=''):
         exe = getattr(T, tool)
         rc, out = mpi(n, exe, [a, b], timeout=120)
         got = diff_verdict(rc, out)
+        if got == 'error':          # an MPI launch can fail under load: one retry, the first output is kept
+            co.stat('retry:%s' % tool)
+            first = out
+            rc, out = mpi(n, exe, [a, b], timeout=240)
+            got = diff_verdict(rc, out)
+            out = out + '\n[first attempt]\n' + first[-800:]
         co.counts.append(('%s np=%d %s: %s | %s -> %s' % (tool, n, klass, desc, base['script_sha'], got), True))
         co.stat('diff:%s:%s:%s' % (tool, klass, want))
         if got != want:
@@ -1042,6 +1052,13 @@ def check_regen(T, co, base, path, c, feats):
     if rc != 0:
         return
     open(cdlp, 'w', encoding='latin-1').write(out)
+    feats = set(feats)
+    try:        # a "_" printed for a variable of a CDF-5 type (ncmpigen has no fill value for those)
+        pc = CDL.parse_cdl(out)
+        if any(v['type'] >= 7 and any(t[0] == 'fill' for t in pc['data'].get(v['name'], [])) for v in pc['vars']):
+            feats.add('data-fill-value-ext-type')
+    except CDL.CdlError:
+        pass
     if os.path.exists(gen):
         os.remove(gen)
     rc, gout = mpi(1, T.ncmpigen, ['-v', str(c.fmt), '-o', gen, cdlp], timeout=120)
@@ -1191,6 +1208,10 @@ def run_case(T, seed, idx, tier):
     base = dict(case=idx, family=family, script=text, script_sha=sha, features=sorted(feats))
     r = S.run_script(text, T.pnc_impl, None, d, 'w', keep=True, want_model=False, timeout=120)
     A = os.path.join(r.dir, 'f0.nc')
+    if r.rc != 0 or not os.path.exists(A):
+        co.stat('retry:session')
+        shutil.rmtree(r.dir, ignore_errors=True)
+        r = S.run_script(text, T.pnc_impl, None, d, 'w', keep=True, want_model=False, timeout=240)
     if r.rc != 0 or not os.path.exists(A):
         co.viol.append(('the session that writes the file failed (rc %s)' % r.rc, dict(base, output=r.stdout[-1500:]), None))
         return co
